@@ -941,6 +941,24 @@ def select_best_whenever_expanded(ctx: Ctx):
            construct="DecodingStrategy.post_decoder_hook:select-best-guard")
 
 
+def likelihood_of_the_selected_rollout(ctx: Ctx):
+    """C12.h best-selection returns "exactly the actions and log-likelihood of that rollout": the log-likelihood is the plain sum
+    of the recorded per-step entries of the taken actions (C11.b, shared) -- the entry recorded for a FORCED first move is a
+    placeholder row of zeros, which any re-normalisation inside get_log_likelihood turns into -log(n)."""
+    from . import C11
+    from ..core import Ctx as _Ctx
+    import contextlib, io
+    sub = _Ctx("C11", ctx.repo, "quick", 0)
+    with contextlib.redirect_stdout(io.StringIO()):
+        C11.run(sub)
+    got = [o for o in sub.obligations if o.rule == "C11.b" and "get_log_likelihood" in o.instance]
+    if not got:
+        raise AnalysisError("C11.b obligation for get_log_likelihood not produced")
+    for o in got:
+        o.rule = "C12.h"
+        ctx.obligations.append(o)
+
+
 def normaliser_keeps_the_shape_of_the_instance(ctx: Ctx):
     """C12.g / C15.l `min_max_normalize` (StateAugmentation(normalize=True)) maps the augmented copies back into the unit square
     with ONE scale for both coordinates: every min / max / amin / amax that defines offset and scale reduces over the
@@ -1022,6 +1040,7 @@ def run(ctx: Ctx):
     n3 = start_nodes(ctx)
     start_nodes_used_as_selected(ctx)
     normaliser_keeps_the_shape_of_the_instance(ctx)
+    likelihood_of_the_selected_rollout(ctx)
     ctx.extra["einops_batch_groups"] = n1
     ctx.extra["arange_sites"] = n2
     ctx.extra["registered_envs_checked"] = n3
